@@ -1,6 +1,7 @@
 import PallasVerif.Model.PlutusData
 import PallasVerif.Proofs.PlutusDataOrd
 import PallasVerif.Proofs.PlutusDataCodec
+import PallasVerif.Proofs.PlutusDataDec
 /-!
 # C07 — PlutusData round-trips; its comparison is a total order
 
@@ -158,6 +159,56 @@ theorem pdata_roundtrip_exact (d : PData) (h : fits d = true) (hw : wfTag d = tr
 /-- decoded values are in normal form, so one round trip reaches the fixed point -/
 theorem decode_encode_canonical (d : PData) : anyCanonical (normAny d) := normAny_idem_of_canon d
 
+/-! ## the byte-level decoder (transcription of the Rust `Decode` impls over minicbor's primitives) -/
+
+/-- the byte-level decoder refines the tree decoder: on **any** valid encoding (canonical or not —
+    any head widths, any chunking of byte strings and bignums, definite or indefinite containers)
+    that `ofItem` maps to `d`, followed by arbitrary bytes, it returns `d` and stops after the item -/
+theorem decoder_refines_tree (i : Item) (d : PData) (r : Bytes) (hw : i.wf = true) (ho : ofItem i = some d) :
+    Dec.decodeBytes (i.encode ++ r) = some (d, r) := Dec.decodeBytes_refines i d r hw ho
+
+/-- **round trip through the byte-level decoder**: the result compares equal to the original,
+    re-encodes to the same bytes, and exactly the encoding is consumed -/
+theorem pdata_roundtrip_bytes (d : PData) (r : Bytes) (h : fits d = true) (hw : wfTag d = true) :
+    ∃ d', Dec.decodeBytes (encode d ++ r) = some (d', r) ∧ cmp? d' d = some .eq ∧ encode d' = encode d := by
+  refine ⟨normAny d, Dec.decodeBytes_refines _ _ r (toItem_wf d h) (ofItem_toItem d h hw), ?_, ?_⟩
+  · rw [cmp?_eq_cmp _ _ (wfTag_normAny d hw) hw, cmp_normAny_left, laws_cmp.refl]
+  · unfold encode; rw [toItem_normAny d hw]
+
+theorem pdata_roundtrip_bytes_exact (d : PData) (r : Bytes) (h : fits d = true) (hw : wfTag d = true)
+    (hc : anyCanonical d) : Dec.decodeBytes (encode d ++ r) = some (d, r) := by
+  have := Dec.decodeBytes_refines _ _ r (toItem_wf d h) (ofItem_toItem d h hw)
+  rw [hc] at this
+  exact this
+
+/-- any chunking of a byte string decodes to the re-assembled bytes (not only the 64-byte one) -/
+theorem bytes_any_chunking (cs : List (Head × Bytes)) (r : Bytes) (hw : chunksWf 2 cs = true) :
+    Dec.decodeBytes ((Item.strIndef 2 cs).encode ++ r) = some (.bytes (chunksPayload cs), r) :=
+  Dec.decodeBytes_refines _ _ r (by simp [Item.wf, hw]) (by simp [ofItem])
+
+/-- **the decoder never leaves the quantifier**: whatever it returns, on any input (malformed,
+    lenient, truncated-then-completed …), has valid constructor tags at every depth — so comparing
+    decoded values cannot panic — and is in `any_constructor` normal form -/
+theorem decoded_in_quantifier (bs : Bytes) (d : PData) (r : Bytes) (h : Dec.decodeBytes bs = some (d, r)) :
+    wfTag d = true ∧ anyCanonical d := Dec.decodeBytes_good bs d r h
+
+/-- decoded values are totally ordered by the library comparison -/
+theorem decoded_cmp_total (bs bs' : Bytes) (a b : PData) (r r' : Bytes)
+    (ha : Dec.decodeBytes bs = some (a, r)) (hb : Dec.decodeBytes bs' = some (b, r')) :
+    ∃ o, cmp? a b = some o ∧ cmp? b a = some o.swap := by
+  have wa := (decoded_in_quantifier bs a r ha).1
+  have wb := (decoded_in_quantifier bs' b r' hb).1
+  refine ⟨cmp a b, cmp?_eq_cmp a b wa wb, ?_⟩
+  rw [cmp?_eq_cmp b a wb wa, laws_cmp.swap b a]
+
+/-- round trip from the byte side: re-encoding a decoded value and decoding again gives the very
+    same value (`fits` holds for every in-memory Rust value) -/
+theorem decode_reencode_stable (bs : Bytes) (d : PData) (r r' : Bytes)
+    (h : Dec.decodeBytes bs = some (d, r)) (hf : fits d = true) :
+    Dec.decodeBytes (encode d ++ r') = some (d, r') := by
+  obtain ⟨hw, hc⟩ := decoded_in_quantifier bs d r h
+  exact pdata_roundtrip_bytes_exact d r' hf hw hc
+
 /-! ## non-vacuity -/
 
 def ex1 : PData := .constr 121 none true [.int (.int 14), .bytes [1, 2, 3], .map false [(.int (.bigU [0, 14]), .array false [])]]
@@ -174,5 +225,15 @@ example : encode (.bytes (List.replicate 65 7)) =
     [0x5f, 0x58, 0x40] ++ List.replicate 64 7 ++ [0x41, 7, 0xff] := by decide
 example : decode (encode ex1) = some ex1 := pdata_roundtrip_exact ex1 (by decide) (by decide) rfl
 example : chunks 2 [1, 2, 3, 4, 5] = [[1, 2], [3, 4], [5]] := by decide
+example : Dec.decodeBytes (encode ex1 ++ [0xaa]) = some (ex1, [0xaa]) :=
+  pdata_roundtrip_bytes_exact ex1 [0xaa] (by decide) (by decide) rfl
+-- alternative encoding: 2-byte head for the tag, indefinite bytes in chunks of 1 and 0, 8-byte int head
+set_option maxRecDepth 8192 in
+example : Dec.decodeBytes [0xd9, 0x00, 0x79, 0x9f, 0x5f, 0x41, 0x07, 0x40, 0xff, 0x1b, 0, 0, 0, 0, 0, 0, 0, 5, 0xff] =
+    some (.constr 121 none false [.bytes [7], .int (.int 5)], []) := by rfl
+-- the tag-102 leniency of the Rust (`d.array()?` ignores the length): accepted by the byte-level
+-- decoder, rejected by the strict tree decoder
+example : Dec.decodeBytes [0xd8, 0x66, 0x83, 0x00, 0x80, 0x05] = some (.constr 102 (some 0) true [], [0x05]) := by rfl
+example : decode [0xd8, 0x66, 0x83, 0x00, 0x80, 0x05] = none := by decide
 
 end PallasVerif.Props.C07
